@@ -9,6 +9,7 @@ Property theorems only; helper lemmas live in `Lemmas/Adversarial.lean`.
 -/
 import FairModel.Lemmas.Adversarial
 import FairModel.Lemmas.AdvStep
+import FairModel.Model.TrainStepLifted
 
 namespace C16
 open Adversarial AdvProjection
@@ -226,6 +227,36 @@ theorem torch_whole_step_direction (A B G : Mat) (α : Rat) (hs : sameShape A B 
     exact Option.some.inj this
 
 end WholeStep
+
+/-! ### the statement structure of `train_step`, LIFTED (`Generated/AdvTrainStepSrc.lean`, harness/lifters/adv_trainstep.py) -/
+
+section TrainStepStructure
+open TrainStepL AdvTrainStepSrc
+
+/-- Whatever the `.grad` buffers held before the step (coefficient `stale`), after the statements of `train_step` in
+    their source order: the first copy is exactly dLP/dW, the second exactly dLA/dW (the buffers are cleared between the
+    two backward passes, nothing accumulates), the predictor's optimiser applies the combine rule to (dLP/dW, dLA/dW) and
+    the adversary's optimiser applies exactly dLA/dU — the plain gradient of its own loss. -/
+theorem lifted_train_step_gradients :
+    lifted.ok = true ∧ lifted.snapLP = some ⟨1, 0, 0⟩ ∧ lifted.snapLA = some ⟨0, 1, 0⟩ ∧
+    lifted.appliedP = some (.comb ⟨1, 0, 0⟩ ⟨0, 1, 0⟩) ∧ lifted.appliedA = some ⟨0, 1, 0⟩ := by decide
+
+/-- the data flow of `train_step`: LP reaches only the predictor's parameters, LA reaches both players' -/
+theorem lifted_loss_dependencies : dependsOn .LP = [.predictor] ∧ dependsOn .LA = [.predictor, .adversary] := by decide
+
+/-- why the clearing between the backward passes matters: without the two `zero_grad` calls in the middle the second
+    copy would be dLP/dW + dLA/dW (regression witness for a dropped `zero_grad`) -/
+theorem accumulation_without_clearing :
+    (run dependsOn [.zeroGrad .predictor, .zeroGrad .adversary, .backward .LP, .snapshot .dW_LP, .backward .LA,
+      .snapshot .dW_LA, .combine, .step .predictor, .step .adversary] init).appliedP
+      = some (.comb ⟨1, 0, 0⟩ ⟨1, 1, 0⟩) := by decide
+
+/-- … and without the clearing at the start the adversary would apply stale gradients of the previous step as well -/
+theorem stale_without_initial_clearing :
+    (run dependsOn [.zeroGrad .predictor, .backward .LP, .snapshot .dW_LP, .zeroGrad .predictor, .backward .LA,
+      .snapshot .dW_LA, .combine, .step .predictor, .step .adversary] init).appliedA = some ⟨0, 1, 1⟩ := by decide
+
+end TrainStepStructure
 
 /-! ### why single-row tests cannot see F4 -/
 
